@@ -165,3 +165,67 @@ def obligations():
                   harness='void harness(void) { struct IO_detail_BinaryFileReader *r; struct TopologyKernel *m; IO_detail_BinaryFileReader__internal_read_file(r, m); }',
                   note='the chunk loop is closed by a loop invariant (unbounded number of chunks, any stream length); read_chunk and the kernel calls are replaced by contract stubs; postcondition: result Ok implies the EOF chunk was seen, the stream is exhausted and the state is Ok'))
     return obs
+
+# ---------------------------------------------------------------------------------------------------------------
+# C07 / C18 / C06: topology chunk bodies. read_topo_chunk with read_edges/read_faces/read_cells and the generic
+# decoding lambdas inlined (real code); the kernel's add_* are contract stubs that assert "every handle designates an
+# existing entity" and record what they are given. Bounded: chunk payload <= 16 bytes, <= 2 entities per chunk.
+TOPO_STUBS = {
+    TKQ + 'add_edge': '''{
+  __CPROVER_assert(_fromVertex.idx_ >= 0 && (unsigned long)_fromVertex.idx_ < g_nv && _toHandle.idx_ >= 0 && (unsigned long)_toHandle.idx_ < g_nv, "C07.read_topo_chunk.edge_endpoints_designate_existing_vertices");
+  if (rec_n < 4) { rec_a[rec_n] = _fromVertex.idx_; rec_b[rec_n] = _toHandle.idx_; } rec_n++;
+  struct EH r; r.idx_ = (int)g_ne; g_ne++; return r; }''',
+    TKQ + 'add_face': '''{
+  for (unsigned long k = 0; k < 8; k++) if (k < _halfedges.size) __CPROVER_assert(_halfedges.data[k].idx_ >= 0 && (unsigned long)_halfedges.data[k].idx_ < 2 * g_ne, "C07.read_topo_chunk.face_halfedges_designate_existing_edges");
+  if (rec_n < 4 && _halfedges.size > 0) { rec_a[rec_n] = _halfedges.data[0].idx_; rec_b[rec_n] = (int)_halfedges.size; } rec_n++;
+  struct FH r; r.idx_ = (int)g_nf; g_nf++; return r; }''',
+    TKQ + 'add_cell': '''{
+  for (unsigned long k = 0; k < 8; k++) if (k < _halffaces.size) __CPROVER_assert(_halffaces.data[k].idx_ >= 0 && (unsigned long)_halffaces.data[k].idx_ < 2 * g_nf, "C07.read_topo_chunk.cell_halffaces_designate_existing_faces");
+  if (rec_n < 4 && _halffaces.size > 0) { rec_a[rec_n] = _halffaces.data[0].idx_; rec_b[rec_n] = (int)_halffaces.size; } rec_n++;
+  struct CH r; r.idx_ = 0; return r; }''',
+}
+TOPO_PRE = 'unsigned long g_nv, g_ne, g_nf; int rec_n; int rec_a[4]; int rec_b[4];\n'
+TOPO_HARNESS = '''
+static unsigned long raw_at(const unsigned char *p, unsigned char enc) { return enc == 1 ? p[0] : (enc == 2 ? (unsigned long)(p[0] | (p[1] << 8)) : ((unsigned long)p[0] | ((unsigned long)p[1] << 8) | ((unsigned long)p[2] << 16) | ((unsigned long)p[3] << 24))); }
+void harness(void) {
+  struct IO_detail_BinaryFileReader r;
+  struct TopologyKernel mesh; r.mesh_ = &mesh;
+  __CPROVER_assume(r.state_ == 5);
+  __CPROVER_assume(r.file_header_.n_verts <= 2147483647UL && r.file_header_.n_edges <= 2147483647UL && r.file_header_.n_faces <= 2147483647UL && r.file_header_.n_cells <= 2147483647UL);
+  __CPROVER_assume(r.n_verts_read_ <= r.file_header_.n_verts && r.n_edges_read_ <= r.file_header_.n_edges && r.n_faces_read_ <= r.file_header_.n_faces && r.n_cells_read_ <= r.file_header_.n_cells);
+  g_nv = r.file_header_.n_verts; g_ne = r.n_edges_read_; g_nf = r.n_faces_read_; rec_n = 0;      /* the mesh holds all vertices and the entities read so far */
+  unsigned long n = nondet_ulong(); __CPROVER_assume(n <= 40);
+  struct IO_detail_Decoder d; d.data_.data = (unsigned char *)malloc(n ? n : 1); d.data_.size = n; d.data_.cap = n; d.cur_ = d.data_.data; d.end_ = d.data_.data + n;
+  unsigned long ne0 = r.n_edges_read_, nf0 = r.n_faces_read_, nc0 = r.n_cells_read_;
+  IO_detail_BinaryFileReader__read_topo_chunk(&r, &d);
+  _Bool accepted = r.state_ == 5 && ovm_exc == 0;
+  /* the header as the format describes it (read_TopoChunkHeader is verified on its own) */
+  unsigned long first = 0; for (int i = 7; i >= 0; i--) first = (first << 8) | (n >= 24 ? d.data_.data[i] : 0);
+  unsigned long count = n >= 24 ? raw_at(d.data_.data + 8, 4) : 0;
+  unsigned char entity = n >= 24 ? d.data_.data[12] : 0, valence = n >= 24 ? d.data_.data[13] : 0, henc = n >= 24 ? d.data_.data[15] : 0;
+  unsigned long offset = 0; for (int i = 23; i >= 16; i--) offset = (offset << 8) | (n >= 24 ? d.data_.data[i] : 0);
+  __CPROVER_assert(!accepted || n >= 24, "C18.read_topo_chunk.short_chunk_is_rejected");
+  __CPROVER_assert(!accepted || count >= 1, "C18.read_topo_chunk.empty_span_is_rejected");
+  __CPROVER_assert(!accepted || d.cur_ == d.end_, "C18.read_topo_chunk.accepted_chunk_is_fully_consumed");
+  __CPROVER_assert(!accepted || entity != 1 || (first == ne0 && r.n_edges_read_ == ne0 + count && r.n_edges_read_ <= r.file_header_.n_edges && (unsigned long)rec_n == count), "C18.read_topo_chunk.edge_span_continues_where_the_last_left_off_and_stays_within_the_declared_total");
+  __CPROVER_assert(!accepted || entity != 2 || (first == nf0 && r.n_faces_read_ == nf0 + count && r.n_faces_read_ <= r.file_header_.n_faces && (unsigned long)rec_n == count), "C18.read_topo_chunk.face_span_consistent");
+  __CPROVER_assert(!accepted || entity != 3 || (first == nc0 && r.n_cells_read_ == nc0 + count && r.n_cells_read_ <= r.file_header_.n_cells && (unsigned long)rec_n == count), "C18.read_topo_chunk.cell_span_consistent");
+  /* handle values: stored handle + handle_offset, as the format description says, with no wrap-around */
+  __CPROVER_assert(!accepted || entity != 1 || valence != 2 || rec_n < 1 || ((unsigned long)rec_a[0] == raw_at(d.data_.data + 24, henc) + offset && offset <= 4294967295UL), "C06.read_topo_chunk.edge_vertex_handle_is_stored_value_plus_handle_offset");
+  __CPROVER_assert(!accepted || entity != 2 || valence == 0 || rec_n < 1 || ((unsigned long)rec_a[0] == raw_at(d.data_.data + 24, henc) + offset && offset <= 4294967295UL && rec_b[0] == valence), "C18.read_topo_chunk.face_halfedge_handle_is_stored_value_plus_handle_offset");
+  __CPROVER_assert(!accepted || entity != 3 || valence == 0 || rec_n < 1 || ((unsigned long)rec_a[0] == raw_at(d.data_.data + 24, henc) + offset && offset <= 4294967295UL && rec_b[0] == valence), "C18.read_topo_chunk.cell_halfface_handle_is_stored_value_plus_handle_offset");
+}
+'''
+_base2 = obligations
+def obligations():
+    obs = _base2()
+    obs.append(Ob(id='C07.read_topo_chunk', props=['C07', 'C18', 'C06'], tu='ovmb', cfg='ovmb', tier='B', roots=[BR + 'read_topo_chunk'], stubs=TOPO_STUBS, harness=TOPO_HARNESS, preamble=TOPO_PRE,
+                  unwind=42, unwind_start=4, timeout=1800, defines={'VSTD_CAP_DEFAULT': 18}, bounds=dict(chunk_bytes=40, entities_per_chunk='<= 16 bytes of payload'),
+                  note='read_topo_chunk with read_edges/read_faces/read_cells and the per-encoding decoding lambdas inlined, on ANY chunk of up to 40 bytes and any reader state; kernel add_* are stubs asserting that every handle designates an existing entity'))
+    obs.append(Ob(id='C07.validate_span', props=['C07', 'C18'], tu='ovmb', cfg='ovmb', tier='U', roots=[BR + 'validate_span'],
+                  harness='void harness(void) { struct IO_detail_BinaryFileReader r; unsigned long total = nondet_ulong(), rd = nondet_ulong(); struct IO_detail_ArraySpan s; __CPROVER_assume(rd <= total);\n  _Bool ok = IO_detail_BinaryFileReader__validate_span(&r, total, rd, &s);\n  __CPROVER_assert(ok == (s.first == rd && s.count <= total - rd), "C18.validate_span.accepts_exactly_spans_that_continue_and_fit");\n  __CPROVER_assert(!ok || s.first + s.count <= total, "C07.validate_span.accepted_span_ends_within_the_declared_total");\n}',
+                  note='validate_span(total, read, span) for all 64-bit arguments with read <= total'))
+    obs.append(Ob(id='C06.suitable_int_encoding', props=['C06'], tu='ovmb', cfg='ovmb', tier='U', roots=[D + 'suitable_int_encoding', D + 'elem_size'],
+                  harness='void harness(void) { unsigned int m = nondet_uint(); unsigned char e = IO_detail__suitable_int_encoding(m); unsigned char sz = IO_detail__elem_size__IO_detail_IntEncoding(e);\n  __CPROVER_assert(sz == 1 || sz == 2 || sz == 4, "C06.suitable_int_encoding.valid_encoding");\n  __CPROVER_assert(sz == 4 || (unsigned long)m < (1UL << (8 * sz)), "C06.suitable_int_encoding.every_value_up_to_max_fits_the_chosen_width");\n  __CPROVER_assert(sz == 1 || (unsigned long)m >= (1UL << (4 * sz)), "C06.suitable_int_encoding.narrowest_width_is_chosen");\n}',
+                  note='suitable_int_encoding(max_value) for all 2^32 arguments: the chosen width holds max_value (255/256 and 65535/65536 boundaries) and is the narrowest'))
+    return obs
